@@ -47,6 +47,7 @@ type c08Certs struct {
 	sign2, enc2, client2                    gmtls.Certificate // further genuine certificates of the trusted CA
 	expSign, expEnc, nySign, nyEnc          gmtls.Certificate
 	nameSign, nameEnc                       gmtls.Certificate
+	wcSign, wcEnc                           gmtls.Certificate // DNS name *.test
 	nokuSign, nokuEnc, kusignEnc, kuencSign gmtls.Certificate
 	dual, ekuSign, ekuEnc                   gmtls.Certificate
 	rsa, p256                               []byte // DER of non-SM2 certificates
@@ -76,6 +77,8 @@ func c08pki() (*gmPKI, *gmPKI, *c08Certs) {
 		c.nyEnc = m.issue(leafOpt{cn: "gm.test", dns: gm, ku: kuEnc, eku: srv, keyID: 2002, notBefore: fut0, notAfter: fut1})
 		c.nameSign = m.issue(leafOpt{cn: "other.test", dns: []string{"other.test"}, ku: kuSign, eku: srv, keyID: 2001})
 		c.nameEnc = m.issue(leafOpt{cn: "other.test", dns: []string{"other.test"}, ku: kuEnc, eku: srv, keyID: 2002})
+		c.wcSign = m.issue(leafOpt{cn: "wildcard", dns: []string{"*.test"}, ku: kuSign, eku: srv, keyID: 2001})
+		c.wcEnc = m.issue(leafOpt{cn: "wildcard", dns: []string{"*.test"}, ku: kuEnc, eku: srv, keyID: 2002})
 		c.nokuSign = m.issue(leafOpt{cn: "gm.test", dns: gm, ku: 0, eku: srv, keyID: 2001})
 		c.nokuEnc = m.issue(leafOpt{cn: "gm.test", dns: gm, ku: 0, eku: srv, keyID: 2002})
 		c.kusignEnc = m.issue(leafOpt{cn: "gm.test", dns: gm, ku: kuSign, eku: srv, keyID: 2002})
@@ -617,6 +620,11 @@ func c08EvalAuth(args []string) string {
 		sc(x.nySign, m.enc)
 	case "s-notyet-enc":
 		sc(m.sign, x.nyEnc)
+	case "s-wildcard-ok": // *.test covers gm.test (one label)
+		sc(x.wcSign, x.wcEnc)
+	case "s-wildcard-deep": // … but not a.gm.test: a wildcard stands for exactly one label
+		sc(x.wcSign, x.wcEnc)
+		st.ccfg.ServerName = "a.gm.test"
 	case "s-wrongname-sign":
 		sc(x.nameSign, m.enc)
 	case "s-wrongname-enc":
@@ -1135,7 +1143,7 @@ func c08ClientAuthenticated(st *c08Setup, res *pairResult, m *gmPKI) string {
 // ---- generator -------------------------------------------------------------------------------------------------------
 
 var c08ServerAttacks = []string{"s-signkey-wrong", "s-enckey-wrong", "s-untrusted", "s-untrusted-withca", "s-untrusted-sign", "s-untrusted-enc",
-	"s-expired-sign", "s-expired-enc", "s-notyet-sign", "s-notyet-enc", "s-wrongname-sign", "s-wrongname-enc",
+	"s-expired-sign", "s-expired-enc", "s-notyet-sign", "s-notyet-enc", "s-wildcard-ok", "s-wildcard-deep", "s-wrongname-sign", "s-wrongname-enc",
 	"s-rsa-sign", "s-rsa-enc", "s-p256-sign", "s-p256-enc", "s-swapped", "s-noku-sign", "s-noku-enc", "s-kusign-enc", "s-kuenc-sign", "s-dual", "s-wrongeku-sign", "s-wrongeku-enc",
 	"ske-otherrandoms", "ske-otherclientrandom", "ske-otherserverrandom", "ske-swaprandoms", "ske-othercert", "ske-nolen",
 	"ske-by-enckey", "ske-by-otherkey", "ske-empty", "ske-replay", "cke-forge",
